@@ -22,7 +22,7 @@ fn expr_hb(e: &BodyExpr, base: i32, cap_hb: i32, memo_hb: i32) -> i32 {
     match e {
         BodyExpr::Outer(_) => cap_hb.max(base + 1),
         BodyExpr::Const(_) | BodyExpr::NewVar { .. } => base + 1,
-        BodyExpr::Map(e, _) => expr_hb(e, base, cap_hb, memo_hb).max(base) + 1,
+        BodyExpr::Map(e, _) | BodyExpr::MapVia(e, _, _) => expr_hb(e, base, cap_hb, memo_hb).max(base) + 1,
         BodyExpr::Map2(a, b, _) => expr_hb(a, base, cap_hb, memo_hb).max(expr_hb(b, base, cap_hb, memo_hb)).max(base) + 1,
         BodyExpr::Fold(es, _) => es.iter().map(|e| expr_hb(e, base, cap_hb, memo_hb)).max().unwrap_or(0).max(base) + 1,
         BodyExpr::Bind(e, b) => {
@@ -53,6 +53,11 @@ pub fn new_bind(w: &Rc<World>, lhs: usize, body: &BodySpec) {
         let cands: Vec<Hid> = match sel {
             OuterSel::Any(_) => clean.clone(),
             OuterSel::LhsAncestor(_) => clean.iter().copied().filter(|h| anc.contains(h)).collect(),
+            OuterSel::Invalid(_) => {
+                let m = w.model.borrow();
+                let nodes = w.nodes.borrow();
+                nodes.iter().enumerate().filter(|(i, e)| e.h.is_some() && !e.pair && !e.trip && m.is_invalid(*i)).map(|(i, _)| i).collect()
+            }
             OuterSel::Sibling(_) => clean
                 .iter()
                 .copied()
@@ -64,7 +69,7 @@ pub fn new_bind(w: &Rc<World>, lhs: usize, body: &BodySpec) {
             continue;
         }
         let i = match sel {
-            OuterSel::Any(i) | OuterSel::LhsAncestor(i) | OuterSel::Sibling(i) => *i,
+            OuterSel::Any(i) | OuterSel::LhsAncestor(i) | OuterSel::Sibling(i) | OuterSel::Invalid(i) => *i,
         };
         let h = cands[i % cands.len()];
         if let Some(NodeH::I(n)) = w.node_h(h) {
@@ -73,7 +78,8 @@ pub fn new_bind(w: &Rc<World>, lhs: usize, body: &BodySpec) {
     }
     let (lhs_hb, lhs_clean) = {
         let nodes = w.nodes.borrow();
-        (nodes[l].hb, nodes[l].clean)
+        // a bind that captured an unclean (invalid) node is itself not capturable by other binds
+        (nodes[l].hb, nodes[l].clean && outers.iter().all(|(h, _)| nodes[*h].clean))
     };
     let cap_hb = {
         let nodes = w.nodes.borrow();
@@ -121,7 +127,8 @@ fn make_bind(
     let tok = w.tokens.issue(bind_hid);
     let spec2 = spec.clone();
     let cap2 = cap.clone();
-    let n = lhs_incr.bind(move |l: &i64| -> Incr<i64> {
+    let use_binds = spec.via & 1 == 1;
+    let mut body = move |l: &i64| -> Incr<i64> {
         let _tok = &tok;
         let w = weak.upgrade().expect("bind closure outlived the world");
         let _g = enter(&w, Ctx::BindFn(bind_hid));
@@ -151,7 +158,8 @@ fn make_bind(
         w.log(Ev::BindRun { bind: bind_hid, gen, l: *l, rhs: rhs_hid });
         run_effects(&w, &spec2.fx, call, Some(MV::I(*l)));
         rhs
-    });
+    };
+    let n = if use_binds { lhs_incr.binds(move |_st, l| body(l)) } else { lhs_incr.bind(body) };
     let hid = w.register(
         NodeH::I(n.clone()),
         RK::Bind {
@@ -205,16 +213,24 @@ fn build(cx: &Cx, e: &BodyExpr) -> (Incr<i64>, Hid) {
             let hid = w.register(NodeH::I(n.clone()), RK::BVar { v: val }, scope, cx.export, false, cx.hb);
             (n, hid)
         }
-        BodyExpr::Map(inner, f) => {
+        BodyExpr::Map(inner, f) | BodyExpr::MapVia(inner, f, _) => {
             let (ie, he) = build(cx, inner);
             let hid = w.next_hid();
             let mut lg = logged(w, hid, vec![]);
             let f = *f;
-            let n = ie.map(move |x: &i64| {
+            let mut mf = move |x: &i64| {
                 let r = f.ap(l, *x);
                 lg(vec![MV::I(*x)], MV::I(r));
                 r
-            });
+            };
+            let n = match e {
+                BodyExpr::MapVia(_, _, v) => match *v % 3 {
+                    0 => ie.map_cyclic(move |_me, x| mf(x)),
+                    1 => ie.enumerate(move |_k, x| mf(x)),
+                    _ => ie.pipe(move |i| i.map(mf)),
+                },
+                _ => ie.map(mf),
+            };
             w.register(NodeH::I(n.clone()), RK::BMap { src: he, f, l }, Some(cx.scope), cx.export, false, cx.hb);
             if cx.export {
                 w.last_exported.set(Some(hid));
